@@ -283,7 +283,27 @@ func (e *Exec) Do(a Action) Event {
 				}
 				to1d = e.blob
 			}
-			cred, err := e.W.RunTO2(ctx, e.Dev, to1d, world.TO2Opts{Kex: kex.Suite(e.Cfg.Kex), Cipher: kex.CipherSuiteID(e.Cfg.Cipher), Modules: mods}, cutHook(a.Cut))
+			// a run that is cut must still come back: TO2 that never returns (also after its context
+			// expired) is a hang, which no action of the specification produces
+			type to2res struct {
+				cred *fdo.DeviceCredential
+				err  error
+			}
+			resc := make(chan to2res, 1)
+			hook := cutHook(a.Cut)
+			go func() {
+				c, err := e.W.RunTO2(ctx, e.Dev, to1d, world.TO2Opts{Kex: kex.Suite(e.Cfg.Kex), Cipher: kex.CipherSuiteID(e.Cfg.Cipher), Modules: mods}, hook)
+				resc <- to2res{c, err}
+			}()
+			var cred *fdo.DeviceCredential
+			var err error
+			select {
+			case r := <-resc:
+				cred, err = r.cred, r.err
+			case <-time.After(120 * time.Second):
+				err = fmt.Errorf("TO2 did not return")
+				ev.Note = "TO2 did not return within 120 s (cut " + a.Cut.Kind + fmt.Sprintf("@%d", a.Cut.T) + "): the device role hangs"
+			}
 			ev.OK = err == nil
 			if err != nil {
 				ev.Err = err.Error()
